@@ -202,7 +202,11 @@ def justify_full_units(ctx):
 
 
 def justify_full_indices(ctx):
-    """C14: both subscripts of `spaces` in the full-justify branch are in range."""
+    """C14: every subscript of the gap-count list in the full-justify branch is in range.
+    The list is found by its construction ([1 for _ in range(k)] / [1] * k), not by its name; copies of it are aliases.
+    A subscript is (A) mirrored  L[len(L) - c - 1]  or (C) direct  L[c]  with a modular cursor c - every definition of c that
+    reaches the subscript is 0, len(L) - 1 or (c +- 1) % len(L), L is non-empty there, and c is initialised after each new list -
+    or (B)  L[i]  with i from enumerate(..) under the guard i < len(L).  A list consumed through zip() needs no subscript."""
     import ast as _ast
     from .. import cfg as cfgmod
     from ..index import norm, short
@@ -211,52 +215,95 @@ def justify_full_indices(ctx):
     g = cfgmod.build(f.node)
     rd = g.reaching_defs(weak=False)
     inside = {id(x) for st in br.body for x in _ast.walk(st)}
+
+    def is_gap_alloc(v):
+        if isinstance(v, _ast.ListComp) and isinstance(v.elt, _ast.Constant) and v.elt.value == 1:
+            return True
+        if isinstance(v, _ast.BinOp) and isinstance(v.op, _ast.Mult):
+            for side in (v.left, v.right):
+                if isinstance(side, _ast.List) and len(side.elts) == 1 and isinstance(side.elts[0], _ast.Constant) and side.elts[0].value == 1:
+                    return True
+        return False
+
+    allocs = [n for n in g.stmt_nodes() if n.kind == "stmt" and n.stmt is not None and id(n.stmt) in inside and isinstance(n.stmt, (_ast.Assign, _ast.AnnAssign)) and getattr(n.stmt, "value", None) is not None and is_gap_alloc(n.stmt.value)]
+    names = set()
+    for n in allocs:
+        t = n.stmt.targets[0] if isinstance(n.stmt, _ast.Assign) else n.stmt.target
+        if isinstance(t, _ast.Name):
+            names.add(t.id)
+    changed = True
+    while changed:
+        changed = False
+        for st in (x for b_ in br.body for x in _ast.walk(b_)):
+            if isinstance(st, _ast.Assign) and isinstance(st.targets[0], _ast.Name) and isinstance(st.value, _ast.Name) and st.value.id in names and st.targets[0].id not in names:
+                names.add(st.targets[0].id)
+                changed = True
+    ctx.floor(len(names), 1, "gap-count lists ([1, 1, ...]) in the full-justify branch")
+    lens = {f"len({a})" for a in names}
     subs = []
     for n in g.stmt_nodes():
         if n.stmt is None or id(n.stmt) not in inside or n.kind not in ("stmt",):
             continue
         for x in _ast.walk(n.stmt):
-            if isinstance(x, _ast.Subscript) and isinstance(x.value, _ast.Name) and x.value.id == "spaces" and not isinstance(x.slice, _ast.Slice):
+            if isinstance(x, _ast.Subscript) and isinstance(x.value, _ast.Name) and x.value.id in names and not isinstance(x.slice, _ast.Slice):
                 subs.append((n, x))
-    ctx.floor(len(subs), 2, "subscripts of `spaces` in the full-justify branch")
-    spaces_defs = [n for n in g.stmt_nodes() if n.kind == "stmt" and isinstance(n.stmt, _ast.Assign) and norm(n.stmt.targets[0]) == "spaces"]
+    if not subs:
+        ctx.ok(f.where, "the gap counts are not subscripted (consumed as a sequence)", f.fq)
+        return
+
+    def cursor_def_ok(v, i):
+        if v is None:
+            return False
+        if isinstance(v, _ast.Constant) and v.value == 0:
+            return True
+        if isinstance(v, _ast.BinOp) and isinstance(v.op, _ast.Sub) and norm(v.left) in lens and isinstance(v.right, _ast.Constant) and v.right.value == 1:
+            return True
+        if isinstance(v, _ast.BinOp) and isinstance(v.op, _ast.Mod) and norm(v.right) in lens and norm(v.left) in (f"{i} + 1", f"1 + {i}", f"{i} - 1"):
+            return True
+        return False
+
+    def is_init(v):
+        return v is not None and ((isinstance(v, _ast.Constant) and v.value == 0) or (isinstance(v, _ast.BinOp) and isinstance(v.op, _ast.Sub) and norm(v.left) in lens and isinstance(v.right, _ast.Constant) and v.right.value == 1))
+
     for n, x in subs:
+        L = x.value.id
         where = f"{m.relpath}:{x.lineno}"
-        idx_names = [y.id for y in _ast.walk(x.slice) if isinstance(y, _ast.Name) and y.id != "spaces"]
+        idx_names = [y.id for y in _ast.walk(x.slice) if isinstance(y, _ast.Name) and y.id not in names and y.id != "len"]
         facts = g.branch_facts(n.id)
-        # form A: spaces[len(spaces) - i - 1] with 0 <= i < len(spaces)
-        if norm(x.slice).replace(" ", "") in ("len(spaces)-index-1", "len(spaces)-1-index", "-index-1", "-1-index", "-(index+1)") or (len(idx_names) == 1 and "len(spaces)" in norm(x.slice)):
-            i = idx_names[0]
-            defs = rd.get(n.id, {}).get(i, set())
+        sl = norm(x.slice).replace(" ", "")
+        mirrored = any(sl in (f"len({a})-{i}-1", f"len({a})-1-{i}") for a in names for i in idx_names) or sl in tuple(f"-{i}-1" for i in idx_names) + tuple(f"-1-{i}" for i in idx_names) + tuple(f"-({i}+1)" for i in idx_names)
+        direct = isinstance(x.slice, _ast.Name)
+        i = idx_names[0] if len(idx_names) == 1 else None
+        defs = rd.get(n.id, {}).get(i, set()) if i else set()
+        from_enum = bool(defs) and all(g.nodes[d].kind == "for" and isinstance(g.nodes[d].stmt.iter, _ast.Call) and norm(g.nodes[d].stmt.iter.func) == "enumerate" and len(g.nodes[d].stmt.iter.args) == 1 for d in defs)
+        if i is not None and (mirrored or (direct and not from_enum and not any(norm(t) in tuple(f"{i} < {ln}" for ln in lens) for t, _v in facts))):
             bad = []
             for d in defs:
                 dn = g.nodes[d]
                 st = dn.stmt
                 v = st.value if isinstance(st, _ast.Assign) and dn.kind == "stmt" else None
-                okd = v is not None and ((isinstance(v, _ast.Constant) and v.value == 0) or (isinstance(v, _ast.BinOp) and isinstance(v.op, _ast.Mod) and norm(v.right) == "len(spaces)" and norm(v.left) in (f"{i} + 1", f"1 + {i}")))
-                if not okd:
+                if not cursor_def_ok(v, i):
                     bad.append(short(st) if st is not None else "?")
-            ctx.check(not bad, f.fq, f"defs of {i} at {norm(x)}", where, f"`{i}` is 0 or ({i} + 1) % len(spaces) on every path to `{norm(x)}`",
-                      f"`{norm(x)}`: the cursor `{i}` can hold a value from `{'; '.join(bad)}` here (e.g. left over from a previous line or rebound by another loop), which may be >= len(spaces): IndexError while justifying")
-            nonempty = any(norm(t) in ("spaces", "num_spaces", "len(spaces)", "len(spaces) > 0", "num_spaces > 0") and v is True for t, v in facts)
-            ctx.check(nonempty, f.fq, "if spaces", where, "`spaces` is non-empty here", f"`{norm(x)}` is evaluated without a dominating `if spaces:` - a single-word line has no gaps and the modulo / subscript raises")
-            zero = {d.id for d in g.stmt_nodes() if d.kind == "stmt" and isinstance(d.stmt, _ast.Assign) and norm(d.stmt.targets[0]) == i and isinstance(d.stmt.value, _ast.Constant) and d.stmt.value.value == 0}
-            for sd in spaces_defs:
-                w = g.must_pass(sd.id, zero, {n.id})
-                ctx.check(w is None, f.fq, f"{i} = 0 after `spaces = ...`", where, f"`{i}` is reset to 0 after each new `spaces` list and before its first use",
-                          f"a path from `{short(sd.stmt)}` reaches `{norm(x)}` without passing `{i} = 0`: the cursor carries over from the previous line (whose gap count can be larger), so the subscript can be out of range", g.describe_path(w) if w else None)
-            # the list is not resized while the cursor is live
-            resize = [y for y in (z for st in br.body for z in _ast.walk(st)) if isinstance(y, _ast.Call) and isinstance(y.func, _ast.Attribute) and norm(y.func.value) == "spaces" and y.func.attr in ("append", "pop", "remove", "clear", "insert", "extend")]
-            ctx.check(not resize, f.fq, "spaces resized", where, "`spaces` keeps its length while it is indexed", f"`spaces` is resized ({short(resize[0]) if resize else ''}) while the cursor indexes it")
+            if not defs:
+                bad.append("no definition")
+            ctx.check(not bad, f.fq, f"defs of {i} at {norm(x)}", where, f"`{i}` is 0, len({L}) - 1 or ({i} +- 1) % len({L}) on every path to `{norm(x)}`",
+                      f"`{norm(x)}`: the cursor `{i}` can hold a value from `{'; '.join(bad)}` here (e.g. left over from a previous line or rebound by another loop), which may be >= len({L}): IndexError while justifying")
+            ok_names = set(names) | lens | {f"{ln} > 0" for ln in lens} | {"num_spaces", "num_spaces > 0"}
+            nonempty = any(norm(t) in ok_names and v is True for t, v in facts)
+            ctx.check(nonempty, f.fq, f"if {L}", where, f"`{L}` is non-empty here", f"`{norm(x)}` is evaluated without a dominating `if {L}:` - a single-word line has no gaps and the modulo / subscript raises")
+            inits = {d.id for d in g.stmt_nodes() if d.kind == "stmt" and isinstance(d.stmt, _ast.Assign) and norm(d.stmt.targets[0]) == i and is_init(d.stmt.value)}
+            for sd in allocs:
+                w = g.must_pass(sd.id, inits, {n.id})
+                ctx.check(w is None, f.fq, f"{i} initialised after `{short(sd.stmt)}`", where, f"`{i}` is initialised after each new gap list and before its first use",
+                          f"a path from `{short(sd.stmt)}` reaches `{norm(x)}` without passing an initialisation of `{i}` (0 or len - 1): the cursor carries over from the previous line (whose gap count can be larger), so the subscript can be out of range", g.describe_path(w) if w else None)
+            resize = [y for y in (z for st in br.body for z in _ast.walk(st)) if isinstance(y, _ast.Call) and isinstance(y.func, _ast.Attribute) and norm(y.func.value) in names and y.func.attr in ("append", "pop", "remove", "clear", "insert", "extend")]
+            ctx.check(not resize, f.fq, f"{L} resized", where, f"`{L}` keeps its length while it is indexed", f"`{L}` is resized ({short(resize[0]) if resize else ''}) while the cursor indexes it")
         else:
-            # form B: spaces[i] guarded by i < len(spaces), i from enumerate (>= 0)
-            i = idx_names[0] if idx_names else None
-            guarded = any(norm(t) in (f"{i} < len(spaces)", f"len(spaces) > {i}") and v is True for t, v in facts)
-            ctx.check(i is not None and guarded, f.fq, norm(x), where, f"`{norm(x)}` is guarded by `{i} < len(spaces)`", f"`{norm(x)}` is evaluated without the guard `{i} < len(spaces)`: the last word has no following gap and the subscript raises IndexError")
+            # form B: L[i] guarded by i < len(L), i from enumerate (>= 0)
+            guarded = i is not None and any(norm(t) in tuple(f"{i} < {ln}" for ln in lens) + tuple(f"{ln} > {i}" for ln in lens) and v is True for t, v in facts)
+            ctx.check(i is not None and guarded, f.fq, norm(x), where, f"`{norm(x)}` is guarded by `{i} < len({L})`", f"`{norm(x)}` is evaluated without the guard `{i} < len({L})`: the last word has no following gap and the subscript raises IndexError")
             if i is not None:
-                defs = rd.get(n.id, {}).get(i, set())
-                oke = all(g.nodes[d].kind == "for" and isinstance(g.nodes[d].stmt.iter, _ast.Call) and norm(g.nodes[d].stmt.iter.func) == "enumerate" and len(g.nodes[d].stmt.iter.args) == 1 for d in defs) and defs
-                ctx.check(bool(oke), f.fq, f"defs of {i}", where, f"`{i}` comes from enumerate(...) (non-negative)", f"`{i}` in `{norm(x)}` is not the counter of enumerate(...): it can be negative or stale")
+                ctx.check(bool(from_enum), f.fq, f"defs of {i}", where, f"`{i}` comes from enumerate(...) (non-negative)", f"`{i}` in `{norm(x)}` is not the counter of enumerate(...): it can be negative or stale")
 
 
 def close_expr(fn, expr, keep=(), depth: int = 4):
